@@ -267,8 +267,8 @@ Qed.
 (* ------------------------------------------------------------------ non-vacuity and the pinned tree *)
 Definition ex_entry : entry :=
   mk_entry [(lit "DESCRIPTION", lit "a tool"); (lit "EAPI", lit "8"); (lit "BOGUS", lit "x")]
-           (Some [(lit "eutils", mk_e (lit "/r/eclass/eutils.eclass") 1700000000 255)])
-           (Some (mk_e (lit "/r/cat/pkg/pkg-1.ebuild") 1700000001 4096)).
+           (Some [(lit "eutils", mk_e (lit "/r/eclass/eutils.eclass") 1700000000250 255)])
+           (Some (mk_e (lit "/r/cat/pkg/pkg-1.ebuild") 1700000001750 4096)).
 Definition ex_cpv : path := [lit "cat"; lit "pkg-1"].
 Definition ex_old : str := lit "EAPI=7" ++ [c_nl] ++ lit "_mtime_=5" ++ [c_nl].
 Definition ex_fs : fs := mk_fs true [(ex_cpv, ex_old); ([lit "cat"; lit "other-2"], ex_old)].
